@@ -1017,9 +1017,7 @@ fn collect_inlinable(items: &[syn::Item], impl_of: Option<&String>, skip: &std::
     let mut consider = |sig: &syn::Signature, block: &syn::Block, out: &mut BTreeMap<String, HelperBody>| {
         let name = sig.ident.to_string();
         if skip.contains(&name) { return; }
-        let mut sc = InlineScan { bad: false, early_exit: false, own: name.clone() };
-        syn::visit::Visit::visit_block(&mut sc, block);
-        if sc.bad { return; }
+        // (eligibility is decided on the LOWERED body, see `helper_eligible`)
         let mut params = Vec::new();
         let mut has_self = false;
         for a in &sig.inputs {
@@ -1029,7 +1027,7 @@ fn collect_inlinable(items: &[syn::Item], impl_of: Option<&String>, skip: &std::
             }
         }
         if out.contains_key(&name) { dup.insert(name.clone()); }
-        out.insert(name, HelperBody { params, block: block.clone(), has_self, early_exit: sc.early_exit });
+        out.insert(name, HelperBody { params, block: block.clone(), has_self, early_exit: false });
     };
     for it in items {
         match it {
@@ -1315,11 +1313,18 @@ fn emit_target(ctx: &mut Ctx, unit: &Unit, t: &Target) -> Emitted {
         skip.insert(t.fn_name.clone());
         let mut helpers = collect_inlinable(&file.items, t.impl_of.as_ref(), &skip);
         if !helpers.is_empty() {
-            for (_, h) in helpers.iter_mut() {
+            let mut bad: Vec<String> = Vec::new();
+            for (name, h) in helpers.iter_mut() {
                 let mut lw2 = Lower { forloops: 1000, drop_generics: drop_g.clone(), rules: lw.rules.clone(), counts: vec![0; n_rules], notes: BTreeMap::new() };
                 lw2.visit_block_mut(&mut h.block);
                 for (_, ty) in h.params.iter_mut() { lw2.visit_type_mut(ty); }
+                // eligibility, on the lowered body (closures that the rules turned into matches are gone)
+                let mut sc = InlineScan { bad: false, early_exit: false, own: name.clone() };
+                syn::visit::Visit::visit_block(&mut sc, &h.block);
+                h.early_exit = sc.early_exit;
+                if sc.bad { bad.push(name.clone()); }
             }
+            for b in bad { helpers.remove(&b); }
             for _ in 0..3 {
                 let mut il = Inliner { helpers: &helpers, inlined: Vec::new(), n: inlined_helpers.len() * 10, tail: false };
                 il.visit_block_mut(&mut block);
